@@ -25,6 +25,6 @@ PROP = {
                   "covered by the checks of C04/C12/C15/C18 remote streams, not here.",
     "trivial_sig": r"malformed",
     "rule": "net stream 3: random Cfg pairs and timeouts (1 ms .. 60 s, plus sub-millisecond ones), a workload with four kinds of pending operations, "
-            "one fault of 6 kinds at a random virtual instant (afterwards a receiver is read repeatedly: it must keep reporting the failure, never end-of-stream), or a fault during the handshake (one direction never writable, or its frames vanish: creating the multiplexers must fail by timeout), or a long idle period (a thousand local timeouts, at most 300 000 ping intervals) in which two thirds of the cases give the two endpoints different timeouts (7 ms / 300 ms / 60 s / none against 5 ms .. 60 s: each side must ping at the rate the other one needs); endpoint stream: see C08; distinct = distinct input",
+            "one fault of 6 kinds at a random virtual instant (silent stalls in half of the cases at a random FRAME index of the workload instead, e.g. between the header and the payload frame of a data message; the deadline counts from the first lost frame) (afterwards a receiver is read repeatedly: it must keep reporting the failure, never end-of-stream), or a fault during the handshake (one direction never writable, or its frames vanish: creating the multiplexers must fail by timeout), or a long idle period (a thousand local timeouts, at most 300 000 ping intervals) in which two thirds of the cases give the two endpoints different timeouts (7 ms / 300 ms / 60 s / none against 5 ms .. 60 s: each side must ping at the rate the other one needs); endpoint stream: see C08; distinct = distinct input",
     "assumptions": ["Tokio paused clock auto-advance = virtual time", "Tokio mpsc/oneshot: a closed channel wakes its waiters with an error"],
 }
